@@ -19,7 +19,7 @@ every edge).  This file provides, in exact rational arithmetic,
 arithmetic on the `f64` runtime constants): neighbouring pentagons that ideally share an edge overlap in a sliver about
 `3·10⁻¹⁷` lattice units wide, because the rounded seed vertices do not satisfy the ideal relations exactly (e.g. the
 `x` of vertex `d` differs from `b.x + v.x` by one unit of `2⁻⁵⁵`).  See `pentagons_disjoint_statement_false` in
-`PentagonDisjoint4.lean` for a kernel-checked witness.  What is true, and proved for every depth, is disjointness up to
+`PentagonDisjoint5.lean` for a kernel-checked witness.  What is true, and proved for every depth, is disjointness up to
 the margin `mu = 2⁻⁵⁴`. -/
 namespace A5.PD
 open A5 A5.HilbertLocate A5.PG A5.CP
